@@ -587,6 +587,18 @@ fn gen_tx(rng: &mut Rng, w: &Weights, cfg: &Config, gw: &mut GenWorld, id: u32, 
                             }
                         }
                         actions.push(ActOp::ValidatorUpdate { vkey, power });
+                        // the same key again in this transaction: add-then-remove / remove-then-add
+                        if rng.chance(1, 4) {
+                            let again = if power == 0 { rng.range(1, 9) as u32 } else { 0 };
+                            if !wrong_signer {
+                                if again == 0 {
+                                    gw.vkeys.retain(|k| *k != vkey);
+                                } else if !gw.vkeys.contains(&vkey) {
+                                    gw.vkeys.push(vkey);
+                                }
+                            }
+                            actions.push(ActOp::ValidatorUpdate { vkey, power: again });
+                        }
                     }
                 }
                 _ => {
